@@ -1,5 +1,5 @@
 """Property -> rules table.  Rules are functions (ctx, repo)."""
-from .rules import ndim, iface, wrappers, rng, mech, errmodels, popmodels, switch, copies, cursors, reduced, layout
+from .rules import ndim, iface, wrappers, rng, mech, errmodels, popmodels, switch, copies, cursors, reduced, layout, noise
 
 PROPS = {}
 
@@ -53,7 +53,8 @@ prop('C01',
                  'is the sum of its pointwise values.')
 
 prop('C02',
-     [iface.r02_1, iface.r02_7, iface.r02_6, wrappers.r02_2, CUR_HIER],
+     [iface.r02_1, iface.r02_7, iface.r02_6, wrappers.r02_2, CUR_HIER,
+      layout.r02_3, layout.r02_4, layout.r07_1],
      undecided=['numerical equality of the score with the hand-assembled sum',
                 'covariate values reaching the right individual at run time'],
      assumptions=COMMON_ASSUME,
@@ -186,6 +187,43 @@ prop('C11',
                  'simulator gets the current dosing regimen re-attached and '
                  'that a replaced myokit model is followed by a refresh of '
                  'the name/count tables, on every path to a normal exit.')
+
+prop('C13',
+     [layout.r13_1, noise.r13_3, layout.r02_3, CUR_FILTER, switch.r03_5,
+      iface.r02_6, iface.r02_7],
+     undecided=['numerical value of the posterior', 'ODE solution'],
+     assumptions=TERM_ASSUME + ['numpy reshape/flatten are C-ordered'],
+     technique='symbolic shape/layout interpretation of the filter '
+               'posterior under enumerated population configurations and '
+               'noise modes; term algebra of the noise lines; eta/psi '
+               'qualifiers; cursor discipline; switch typestate',
+     explanation='Decides that the flat vector [top | bottom | noise] is '
+                 'parsed, named and labelled with one layout, that every '
+                 'branch of the special-dimension helpers is shape- and '
+                 'layout-consistent for all-hierarchical / all-pooled / '
+                 'all-heterogeneous (one and two sub-models) populations with '
+                 'free and fixed noise scales, that the noise lines apply '
+                 'the chain rule of their own branch, and that the '
+                 'population density scores eta while the mechanistic model '
+                 'receives psi.')
+
+prop('C17',
+     [layout.r05_3, layout.r02_4, layout.r13_1, layout.r07_1,
+      wrappers.r02_2, reduced.r08_4, CUR_HIER, CUR_LL],
+     undecided=['uniqueness of run-time names (string contents)',
+                'bounded enumeration of deeper compositions'],
+     assumptions=COMMON_ASSUME + ['numpy reshape/flatten are C-ordered'],
+     technique='polynomial identities between symbolic counts, name-list '
+               'lengths and gradient shapes per class; layout (nesting) '
+               'agreement of names, reshapes and flattened gradients; '
+               'stale-cache fixpoint for reconfiguration',
+     explanation='Decides per class, for all n_dim / n_ids / n_cov, that '
+                 'the number of names, n_parameters and the gradient length '
+                 'agree and that names, reshapes and gradients use one '
+                 'layout; for the hierarchical and filter posteriors that '
+                 'names and IDs cover [bottom | top] resp. [top | bottom | '
+                 'noise] with the parsed layout; that wrappers keep no stale '
+                 'count across set_n_ids.')
 
 prop('C16',
      [rng.r16_1, rng.r16_2, rng.r16_3, rng.r16_4, rng.r16_5],
